@@ -103,7 +103,7 @@ struct MockDe<'a> {
 }
 
 impl<'a> MockDe<'a> {
-    fn fire<'de, V: Visitor<'de>>(&self, asked: &str, visitor: V) -> Result<V::Value, MockError> {
+    fn fire<V: Visitor<'a>>(&self, asked: &str, visitor: V) -> Result<V::Value, MockError> {
         *self.asked.borrow_mut() = asked.to_string();
         let p = self.payload;
         match self.kind {
@@ -112,6 +112,13 @@ impl<'a> MockDe<'a> {
             "char" => visitor.visit_char(p[0] as char),
             "bytes" => visitor.visit_bytes(p),
             "bytebuf" => visitor.visit_byte_buf(p.to_vec()),
+            // borrowed events (zero-copy formats hand out data living as long as the input)
+            "bstr" => visitor.visit_borrowed_str(std::str::from_utf8(p).expect("HARNESS: utf8")),
+            "bbytes" => visitor.visit_borrowed_bytes(p),
+            // a sequence of u8 (how some formats present byte arrays), a newtype wrapper and Some(..) around a string
+            "seq" => visitor.visit_seq(de::value::SeqDeserializer::<_, MockError>::new(p.iter().copied())),
+            "newtype" => visitor.visit_newtype_struct(de::value::StrDeserializer::<MockError>::new(std::str::from_utf8(p).unwrap_or("?"))),
+            "some" => visitor.visit_some(de::value::StrDeserializer::<MockError>::new(std::str::from_utf8(p).unwrap_or("?"))),
             "u8" => visitor.visit_u8(p.first().copied().unwrap_or(0)),
             "u64" => visitor.visit_u64(p.len() as u64),
             "i64" => visitor.visit_i64(-(p.len() as i64)),
@@ -132,7 +139,7 @@ macro_rules! forward {
     };
 }
 
-impl<'de, 'a> de::Deserializer<'de> for &'a MockDe<'a> {
+impl<'de> de::Deserializer<'de> for &'de MockDe<'de> {
     type Error = MockError;
     forward! { deserialize_any deserialize_bool deserialize_i8 deserialize_i16 deserialize_i32 deserialize_i64
                deserialize_u8 deserialize_u16 deserialize_u32 deserialize_u64 deserialize_f32 deserialize_f64
